@@ -394,6 +394,10 @@ const (
 	kVolatile emitKind = 'v'
 	kAck      emitKind = 'a'
 	kAckTO    emitKind = 't'
+	// volatile AND with a timeout, the flags chained in either order: still volatile (dropped while
+	// disconnected; its callback then gets the timeout error)
+	kVolThenTO emitKind = 'V'
+	kTOThenVol emitKind = 'W'
 )
 
 // offline: the connection is lost; while the socket is disconnected the application emits `during`
@@ -466,6 +470,20 @@ func offlineScenario2(name, before, during, after string, bound int, hello ...bo
 				sock.Volatile().Emit("m", tag)
 			case kAck:
 				sock.Emit("ma", tag, func(reply string) { v.Do(func() { acks = append(acks, reply) }) })
+			case kVolThenTO, kTOThenVol:
+				em := sock.Volatile().Timeout(4 * time.Minute)
+				if emitKind(k) == kTOThenVol {
+					em = sock.Timeout(4 * time.Minute).Volatile()
+				}
+				em.Emit("ma", tag, func(err error, reply string) {
+					v.Do(func() {
+						if err != nil {
+							acks = append(acks, "ERR:"+tag)
+						} else {
+							acks = append(acks, reply)
+						}
+					})
+				})
 			case kAckTO:
 				sock.Timeout(4*time.Minute).Emit("ma", tag, func(err error, reply string) {
 					v.Do(func() {
@@ -495,7 +513,7 @@ func offlineScenario2(name, before, during, after string, bound int, hello ...bo
 		for i := 0; i < len(during); i++ {
 			tag := fmt.Sprintf("d%d%c", i, during[i])
 			emit(during[i], tag)
-			if emitKind(during[i]) == kVolatile {
+			if k := emitKind(during[i]); k == kVolatile || k == kVolThenTO || k == kTOThenVol {
 				volatileOffline = append(volatileOffline, tag)
 			} else {
 				want = append(want, tag)
@@ -575,9 +593,18 @@ func offlineScenario2(name, before, during, after string, bound int, hello ...bo
 			seen := map[string]int{}
 			for _, a := range acks {
 				seen[a]++
-				if seen[a] > 1 || strings.HasPrefix(a, "ERR:") {
+				droppedVolatile := false
+				for _, vt := range volatileOffline {
+					if a == "ERR:"+vt {
+						droppedVolatile = true // dropped while disconnected: the timeout is its answer
+					}
+				}
+				if seen[a] > 1 || (strings.HasPrefix(a, "ERR:") && !droppedVolatile) {
 					r.Violate("offline: ack callback of a buffered emit invoked twice or with an error", "%s", what)
 				}
+			}
+			for _, part := range []string{before, during, after} {
+				nAck += strings.Count(part, "V") + strings.Count(part, "W")
 			}
 			if len(acks) != nAck {
 				r.Violate("offline: ack callback of a buffered emit not invoked", "%d of %d acks; %s", len(acks), nAck, what)
@@ -677,6 +704,8 @@ func scenarios(tier string) []*vx.Scenario {
 		offlineScenario2("offline/before=pv-during=at-after=pv", "pv", "at", "pv", b),
 		offlineScenario2("offline/before=a-during=pvp-after=t", "a", "pvp", "t", b),
 		offlineScenario2("offline/during=pp", "", "pp", "", b+1),
+		offlineScenario2("offline/during=pVpW-volatile-with-timeout", "", "pVpW", "", b),
+		offlineScenario2("offline/before=V-during=Wp-after=V", "V", "Wp", "V", b),
 		offlineScenario2("offline/during=pa-server-greets-with-ack-request", "", "pa", "", b+1, true),
 		offlineScenario2("offline/during=p-emitter-races-the-reconnection", "", "p", "", b+1, false, true),
 		offlineScenario2("offline/during=none-emitter-races-the-reconnection", "", "", "", b+1, false, true),
@@ -698,7 +727,7 @@ func main() {
 		Property: "C15",
 		Level:    "model_checking",
 		Rule: "back-off: full grid of (ReconnectionDelay, ReconnectionDelayMax, jitter, attempt number incl. overflowing ones, random draw) with the random draw scripted; reconnect machine: outage of j = 0..5 failed dials x attempt limit 0..5 x {refused at once, dial times out after 20 s}, each executed on the real Manager/Server pair in virtual time and judged on the timestamped reconnect_* events; " +
-			"offline traffic: all 24 orders of {plain, volatile, ack, ack+timeout} emitted while disconnected plus before/during/after placements, an emitter on another goroutine racing the completion of the reconnection, and Disconnect() directly followed by Connect(), explored to the deviation bound. distinct_nontrivial = grid points with attempt > 0 and jitter in (0,1] + outage cases + deviating schedules",
+			"offline traffic: all 24 orders of {plain, volatile, ack, ack+timeout} (plus volatile chained with a timeout in either order) emitted while disconnected plus before/during/after placements, an emitter on another goroutine racing the completion of the reconnection, and Disconnect() directly followed by Connect(), explored to the deviation bound. distinct_nontrivial = grid points with attempt > 0 and jitter in (0,1] + outage cases + deviating schedules",
 		Scenarios: scenarios,
 		Budget: func(tier string) time.Duration {
 			if tier == "thorough" {
